@@ -471,16 +471,59 @@ def _unroll_literal_loops(tree: ast.AST) -> None:
     import copy
 
     def simple(e: ast.AST) -> bool:
-        return isinstance(e, (ast.Constant, ast.Name)) or (isinstance(e, ast.Attribute) and simple(e.value))
+        if isinstance(e, (ast.Constant, ast.Name)) or (isinstance(e, ast.Attribute) and simple(e.value)):
+            return True
+        # a row may carry a tuple of option strings and a dict of keywords that the body unpacks with * / **
+        if isinstance(e, (ast.Tuple, ast.List)):
+            return all(simple(x) for x in e.elts)
+        if isinstance(e, ast.Dict):
+            return all(isinstance(k, ast.Constant) and isinstance(k.value, str) and k.value.isidentifier() for k in e.keys) and all(simple(v) for v in e.values)
+        return False
+
+    # module-level tables: NAME = [row, row, ...] bound once at module level
+    tables: dict[str, ast.AST] = {}
+    counts: dict[str, int] = {}
+    if isinstance(tree, ast.Module):
+        for st0 in tree.body:
+            tg0 = st0.targets[0] if isinstance(st0, ast.Assign) and len(st0.targets) == 1 else (st0.target if isinstance(st0, ast.AnnAssign) and st0.value is not None else None)
+            if isinstance(tg0, ast.Name):
+                counts[tg0.id] = counts.get(tg0.id, 0) + 1
+                if isinstance(st0.value, (ast.Tuple, ast.List)):
+                    tables[tg0.id] = st0.value
+
+    def expand_stars(stmt: ast.stmt) -> None:
+        """f(*("-o", "--output"), **{"type": str})  ->  f("-o", "--output", type=str)"""
+        for c in ast.walk(stmt):
+            if isinstance(c, ast.Call):
+                new_args: list[ast.expr] = []
+                for a in c.args:
+                    if isinstance(a, ast.Starred) and isinstance(a.value, (ast.Tuple, ast.List)):
+                        new_args.extend(a.value.elts)
+                    else:
+                        new_args.append(a)
+                c.args = new_args
+                new_kw: list[ast.keyword] = []
+                for k in c.keywords:
+                    if k.arg is None and isinstance(k.value, ast.Dict) and all(isinstance(x, ast.Constant) and isinstance(x.value, str) for x in k.value.keys):
+                        new_kw.extend(ast.keyword(arg=x.value, value=v) for x, v in zip(k.value.keys, k.value.values))
+                    else:
+                        new_kw.append(k)
+                c.keywords = new_kw
 
     for fn in [n for n in ast.walk(tree) if isinstance(n, (ast.FunctionDef, ast.AsyncFunctionDef))]:
+        local_stores = {x.id for x in ast.walk(fn) if isinstance(x, ast.Name) and isinstance(x.ctx, (ast.Store, ast.Del))}
+        for loop in [x for x in ast.walk(fn) if isinstance(x, ast.For)]:
+            if isinstance(loop.iter, ast.Name) and loop.iter.id in tables and counts.get(loop.iter.id) == 1 and loop.iter.id not in local_stores \
+                    and len(tables[loop.iter.id].elts) <= 24 and any(isinstance(y, ast.Starred) or (isinstance(y, ast.keyword) and y.arg is None) for b in loop.body for y in ast.walk(b)):
+                # (only tables whose rows are unpacked with * / ** in the body: those declarations are otherwise invisible)
+                loop.iter = copy.deepcopy(tables[loop.iter.id])
         for holder in ast.walk(fn):
             for fld in ("body", "orelse", "finalbody"):
                 lst = getattr(holder, fld, None)
                 if not (isinstance(lst, list) and lst and isinstance(lst[0], ast.stmt)):
                     continue
                 for st in list(lst):
-                    if not (isinstance(st, ast.For) and not st.orelse and isinstance(st.iter, (ast.Tuple, ast.List)) and 1 <= len(st.iter.elts) <= 8):
+                    if not (isinstance(st, ast.For) and not st.orelse and isinstance(st.iter, (ast.Tuple, ast.List)) and 1 <= len(st.iter.elts) <= 24):
                         continue
                     tnames = [st.target.id] if isinstance(st.target, ast.Name) else (
                         [e.id for e in st.target.elts] if isinstance(st.target, (ast.Tuple, ast.List)) and all(isinstance(e, ast.Name) for e in st.target.elts) else None)
@@ -520,7 +563,9 @@ def _unroll_literal_loops(tree: ast.AST) -> None:
                                 return ast.copy_location(copy.deepcopy(env[n.id]), n) if n.id in env and isinstance(n.ctx, ast.Load) else n
 
                         for b in st.body:
-                            out.append(ast.copy_location(_Sub().visit(copy.deepcopy(b)), b))
+                            nb = ast.copy_location(_Sub().visit(copy.deepcopy(b)), b)
+                            expand_stars(nb)
+                            out.append(nb)
                     i = lst.index(st)
                     lst[i:i + 1] = out
     ast.fix_missing_locations(tree)
